@@ -15,15 +15,16 @@ from harness import fakempi
 RULE = ('OnlineVariance stream: 0-40 samples (quota for 0,1,2,3), 1-7 ranks, scalar or 1-4 element values, weights '
         'equal / uniform / 12 decades wide / partly or wholly 1e-300-floored / rescaled by 1e+-120, split strided (rank::size) or arbitrary with forced '
         'empty and one-sample ranks; optimizer stream: 2-14 posterior samples of (planet_radius, T, log H2O) on a '
-        '5-layer TransmissionModel with an in-memory H2O opacity, 1-7 ranks, distinct weights; tied-weights stream: '
-        'same with repeated / zero weights. distinct non-trivial = distinct (stream, ranks, samples, weight kind, '
+        '5-layer TransmissionModel with an in-memory H2O opacity, 1-7 ranks, distinct weights; tied-weights stream '
+        '(judged the same way): repeated / zero / all-equal weights on 2-7 ranks. distinct non-trivial = distinct (stream, ranks, samples, weight kind, '
         'split kind, #empty ranks, #one-sample ranks) with non-constant values')
 ASSUMPTIONS = [
     'mpi4py object collectives pickle every element (fake communicator does a real pickle round trip); allreduce(SUM) '
     'of lists concatenates in rank order; collectives are synchronous so rank interleaving cannot change gathered values',
     'list[r::size] and range(r, n, size) enumerate the indices r, r+size, ... (validated against Variance.strided each run)',
     'np.sum over fewer than 8 floats is a left-to-right sum; numpy arithmetic is element-wise (the model is one element)',
-    'np.argsort on distinct keys is the sorting permutation (ties unspecified: excluded from the main stream)',
+    'np.argsort on distinct integer keys (the gathered sample indices) is the sorting permutation; a[idx] takes '
+    'the elements at idx in order',
     'rounding: model on Float vs numpy doubles compared to 1e-9 relative + 1e-12*max|x|^2',
 ]
 
@@ -409,7 +410,7 @@ def gen_opt_case(rng, k, tied=False):
         else:
             w = np.full(n, 1.0 / n)
     elif len(set(w.tolist())) < n:
-        # distinct weights in the main stream (ties are K2, judged in their own stream)
+        # distinct weights here; ties (the former defect K2) have their own quota in the tied stream
         w = np.sort(rng.uniform(0.05, 1.0, n))[rng.permutation(n)]
     return dict(samples=samples, weights=w, size=size, seed=int(rng.integers(0, 2 ** 31)), wkind=kind, tied=tied)
 
@@ -499,15 +500,9 @@ def eval_opt_case(ctx, c):
             if ok:
                 continue
             if key.endswith(':trace'):
-                if tied:
-                    ctx.violation('derived-trace-order-tied-weights', 'compute_derived_trace on %d ranks with tied '
-                                  'weights: the gathered trace is not in sample order (single process: %s, rank %d: '
-                                  '%s)' % (size, rv.tolist(), r, None if pv is None else pv.tolist()), small,
-                                  dict(param=key, weights=weights))
-                else:
-                    ctx.violation('derived-trace-order', 'derived-parameter trace differs from the single-process '
-                                  'trace although all weights are distinct', small,
-                                  dict(param=key, single=rv, rank=r, ranks=pv))
+                ctx.violation('derived-trace-order', 'compute_derived_trace on %d ranks: the stored trace is not the '
+                              'single-process trace (sample order)%s' % (size, ' [tied weights]' if tied else ''),
+                              small, dict(param=key, single=rv, rank=r, ranks=pv, weights=weights))
             elif key.endswith(':summary'):
                 ctx.violation('derived-summary', 'derived-parameter summary (median, sigma-, sigma+, mean) differs '
                               'from the single-process run', small, dict(param=key, single=rv, rank=r, ranks=pv))
@@ -528,13 +523,15 @@ def eval_opt_case(ctx, c):
     tstd = np.asarray(vals[0]['out']['temp_profile_std'], float).ravel()
     ctx.check_close('generate_profiles temp_profile_std^2 vs Variance.splitVariance', float(tstd[0]) ** 2,
                     mv if mv != 'raises' else float('inf'), small, 1e-7, 1e-9 * 2200.0 ** 2)
-    if not tied:
-        for key, rv in trace_sample_order.items():
-            d = m.call('c18.derived', C.N(size), C.L(weights), C.L(rv))
-            restored = d.list()
-            d.list()
-            ctx.check_close('compute_derived_trace order vs Variance.derivedTraceGather', vals[0]['out'][key],
-                            restored, small, 1e-12, 0.0)
+    for key, rv in trace_sample_order.items():
+        d = m.call('c18.derived', C.N(size), C.L(rv))
+        restored = d.list()
+        d.list()
+        gidx = d.list(d.nat)
+        ctx.check_close('compute_derived_trace order vs Variance.derivedTraceGather', vals[0]['out'][key],
+                        restored, small, 1e-12, 0.0)
+        ctx.check_eq('rank-ordered gather of range(rank, n, size) vs Variance.gatherLists (partition size (range n))',
+                     [i for r in range(size) for i in range(r, n, size)], gidx, small)
 
 
 # ----------------------------------------------------------------------------- assumptions / malformed
@@ -585,7 +582,7 @@ def run(ctx):
         eval_ov_case(ctx, gen_ov_case(ctx.rng, k))
     for k in range(ctx.n(120, 1200)):
         eval_opt_case(ctx, gen_opt_case(ctx.rng, k))
-    for k in range(ctx.n(10, 100)):
+    for k in range(ctx.n(40, 400)):
         eval_opt_case(ctx, gen_opt_case(ctx.rng, k, tied=True))
     malformed(ctx)
     ctx.extra['fake_mpi'] = 'forked ranks + pipes, pickle round trip on every exchanged object'
